@@ -368,6 +368,31 @@ thread_local! {
     static CLEAN_CWD: std::cell::Cell<bool> = const { std::cell::Cell::new(false) };
 }
 
+thread_local! {
+    /// Counts the executions of a configuration that populates its working directory: entries are
+    /// created in one order on even executions and in the opposite order on odd ones (on tmpfs and
+    /// on many other file systems that is also the order, or the reverse of the order, in which a
+    /// directory listing returns them).
+    static POPULATE_SEQ: std::cell::Cell<usize> = const { std::cell::Cell::new(0) };
+}
+
+/// `populate-cwd` configurations: a file and two symbolic links to it, created in alternating order.
+fn populate_cwd(cfg_name: &str) {
+    if !cfg_name.contains("populate-cwd") {
+        return;
+    }
+    let n = POPULATE_SEQ.with(|c| {
+        let v = c.get();
+        c.set(v + 1);
+        v
+    });
+    let _ = std::fs::write("data", b"payload");
+    let names = if n % 2 == 0 { ["alias-x", "alias-y"] } else { ["alias-y", "alias-x"] };
+    for l in names {
+        let _ = std::os::unix::fs::symlink("data", l);
+    }
+}
+
 fn clean_cwd() {
     if let Ok(rd) = std::fs::read_dir(".") {
         for e in rd.flatten() {
@@ -427,6 +452,22 @@ pub fn cwd_configs(root: &std::path::Path) -> Vec<Config> {
             let lay = world::layout(vec![], insp, &[], world::far_future());
             out.push(Config { name: name.into(), layout: world::sign_layout(lay, &[owner]), owners: world::owner_map(&[owner]), dir: dir.clone(), ambiguous: false });
         }
+    }
+    // (xvii) the working directory holds a file and two symbolic links to it; the entries are created
+    // in alternating order from one execution to the next (which is how a directory listing's order
+    // is varied without a hook). One layout tolerates only the first alias, the other only the
+    // second: whatever the verdicts are, they are the same on every execution.
+    for keep in ["alias-x", "alias-y"] {
+        let dir = root.join(format!("xvii-{keep}"));
+        std::fs::create_dir_all(&dir).unwrap();
+        let insp = Inspection::new("look")
+            .run(vec!["true".to_string()].into())
+            .add_expected_material(ArtifactRule::Allow(world::vpath("data")))
+            .add_expected_material(ArtifactRule::Allow(world::vpath(keep)))
+            .add_expected_material(ArtifactRule::Allow(world::vpath("*.link")))
+            .add_expected_material(ArtifactRule::Disallow(world::vpath("*")));
+        let lay = world::layout(vec![], vec![insp], &[], world::far_future());
+        out.push(Config { name: format!("xvii:populate-cwd:two-aliases-of-one-file:only-{keep}-tolerated"), layout: world::sign_layout(lay, &[owner]), owners: world::owner_map(&[owner]), dir, ambiguous: false });
     }
     // (xvi) verification repeated in the SAME working directory (not emptied in between): two
     // inspections, the later one requiring the link file the earlier one leaves behind. The first
@@ -489,6 +530,7 @@ pub fn run_config(
         if CLEAN_CWD.with(|c| c.get()) {
             clean_cwd();
         }
+        populate_cwd(&cfg.name);
         let (v, d) = world::verify_with(&cfg.layout, cfg.owners.clone(), &cfg.dir, drv);
         (v, d.trace, d.diverged)
     };
@@ -572,11 +614,12 @@ pub fn run_config(
             if CLEAN_CWD.with(|c| c.get()) {
                 clean_cwd();
             }
+            populate_cwd(&cfg.name);
             let (v, _) = world::verify_with(&cfg.layout, cfg.owners.clone(), &cfg.dir, world::default_driver());
             local.evaluations += 1;
             if seen.insert(obs_of(&v)) && seen.len() == 2 {
                 local.violation(
-                    if cfg.name.contains("keep-cwd") { "depends-on-files-left-by-the-previous-verification" } else { "order-dependent:unowned-iteration-order(sampled)" },
+                    if cfg.name.contains("keep-cwd") { "depends-on-files-left-by-the-previous-verification" } else if cfg.name.contains("populate-cwd") { "depends-on-the-order-in-which-directory-entries-were-created" } else { "order-dependent:unowned-iteration-order(sampled)" },
                     "repeating verification on the same inputs and the same owned iteration orders gives different outcomes (found by repetition)",
                     || json!({"config": cfg.name, "outcome_a": firstv.as_ref().map(|f| f.to_json()), "outcome_b": v.to_json()}),
                 );
